@@ -175,8 +175,11 @@ def run_C12(tier, seed, replay=None, procs=16):
                          "clauses": ["C12_exhaustion"], "problem": c["problem"], "tag": c["problem"]["tag"],
                          "detail": {"config": {"solver_kw": c["solver_kw"], "mode": c["mode"], "priority": c["priority"]},
                                     "calls": r["calls"], "events": r["events"]}})
-    cov = _cov(res, st_enum, ps, V, extra_states=st_spec["distinct"])
+    # liveness of the enumeration on the specification (weak fairness, no state constraint)
+    st_live, nlive = _spec_check(cfg="MC_Solver_live.cfg", max_pts=3)
+    cov = _cov(res, st_enum, ps, V, extra_states=st_spec["distinct"] + st_live["distinct"])
     cov["spec_model_checking"] = {"scenarios": nsc, **st_spec}
+    cov["spec_liveness_exhaustion"] = {"scenarios": nlive, "property": "Exhausts under LiveSpec (WF)", **st_live}
     return {"violations": viol, "coverage": cov, "assumptions": ASSUME,
             "summary": f"{len(ps)} problems, {cov['call_histories_replayed']} histories to exhaustion"}
 
@@ -349,6 +352,10 @@ def run_C19(tier, seed, replay=None, procs=16):
         n_diag += 1
         text = r["stdout"].split("Unsatisfied constraints", 1)[1]
         names = [m.group(2) for m in _CONFLICT.finditer(text)]
+        mcount = re.search(r"conflict between (\d+) constraints", text)
+        if mcount is None or int(mcount.group(1)) != len(names):
+            # the printed diagnosis is not in the format this harness reads: a machinery failure, not a verdict
+            raise RuntimeError(f"cannot parse the debug diagnosis of {p['tag']}: announced {mcount and mcount.group(1)}, parsed {names}")
         known = {k["name"] for k in p["cons"]} | {op["name"] for bf in p["buffers"] for op in bf["ops"]}
         alien = [n for n in names if n not in known]
         cfg = {"solver_kw": c["solver_kw"], "mode": c["mode"], "priority": c["priority"]}
